@@ -122,8 +122,8 @@ impl C01 {
     fn enumerate(&mut self, tier: Tier) {
         let cfgs: Vec<(Cfg, Vec<Fault>)> = match tier {
             Tier::Quick | Tier::Search => vec![
-                (Cfg { handler: Handler::Cond, v2: false, stable: false }, vec![Fault::Crash, Fault::LostResponse]),
-                (Cfg { handler: Handler::Rename, v2: true, stable: true }, vec![Fault::Crash, Fault::FailBefore]),
+                (Cfg { handler: Handler::Cond, v2: false, stable: false }, vec![Fault::Crash, Fault::LostResponse, Fault::FailBefore]),
+                (Cfg { handler: Handler::Rename, v2: true, stable: true }, vec![Fault::Crash, Fault::FailBefore, Fault::LostResponse]),
                 (Cfg { handler: Handler::Lock, v2: false, stable: true }, vec![Fault::Crash]),
             ],
             Tier::Thorough => {
@@ -463,7 +463,7 @@ fn main() {
     if args.replay.is_none() {
         p.enumerate(args.tier);
         p.n_random = match args.tier {
-            Tier::Quick => 120,
+            Tier::Quick => 90,
             Tier::Thorough => 1500,
             Tier::Search => 600,
         };
